@@ -113,10 +113,11 @@ const API_REAL: &[&str] = &[
     "aldrin::ClientBuilder, Client (run, select, drain), Handle and every client-side type (Object, low_level::{Service, Call, Promise, Proxy, Event, PendingReply}, channel types in all six states, BusListener, Discoverer, LifetimeScope, Lifetime)",
     "aldrin_broker::Broker, BrokerHandle, Acceptor, Connection",
     "aldrin_core::channel::{Bounded, Unbounded} transports, transport::Buffered, message types, value codec and converter",
+    "aldrin_core::tokio::TokioTransport + message::Packetizer + message (de)serializer over a simulated byte pipe with short reads/writes and Pending, for about a quarter of the clients",
 ];
 const API_STUB: &[&str] = &[
     "applications: interpreted random programs, server / producer / consumer tasks",
-    "transport wrapper Faulty (operation counter, fault injection, Pending injection, Connect2 version clamp) and, for some clients, the simulated pipe",
+    "transport wrapper Faulty (operation counter, fault injection, Pending injection, optional write-buffer emulation that only releases messages on flush, Connect2 version clamp) and, for some clients, the simulated message pipe / byte pipe",
     "entropy: uuid stream (hook H1), RandomState keys (getrandom interposition)",
 ];
 const API_ASSUME: &[&str] = &[
